@@ -470,6 +470,11 @@ func (vfs *MemFS) MkdirAll(path string, perm fs.FileMode) error {
 		return &fs.PathError{Op: op, Path: pi.LeftPart(), Err: vfs.err.NotADirectory}
 	}
 
+	// The volume of the path does not exist.
+	if parent == nil {
+		return &fs.PathError{Op: op, Path: path, Err: err}
+	}
+
 	parent.mu.Lock()
 	defer parent.mu.Unlock()
 
